@@ -132,6 +132,78 @@ pub fn check_from(rep: &mut Rep, w: &World, r_c: i128, dy: TimeScale, su: TimeSc
     }
 }
 
+/// An epoch held in one dynamical scale read in the *other* one and in its own, through every entry point (the two scales
+/// share J2000 as their zero, which is exactly what makes a "same reference, same count" short-cut look right): the
+/// reading in the other scale is the closed form of that scale applied to the instant the closed form of the held scale
+/// denotes (30 ns each way, so 60 ns), the reading in its own scale comes back within the round-trip tolerance.
+pub fn check_cross_dyn(rep: &mut Rep, w: &World, r_c: i128, dy: TimeScale) {
+    if !rep.tick() {
+        return;
+    }
+    let od = if dy == TimeScale::ET { TimeScale::TDB } else { TimeScale::ET };
+    rep.class(if dy == TimeScale::ET { "cross-dyn/ET-held" } else { "cross-dyn/TDB-held" });
+    rep.nt(h64(&[11, r_c as u64, (r_c >> 64) as u64, scale_idx(dy)]));
+    let want_other = w.from_tai(w.to_tai(r_c, dy), od).unwrap();
+    let e = ep(r_c, dy);
+    match guard(|| {
+        let named = |x: &Epoch, s: TimeScale| if s == TimeScale::ET { x.to_et_duration() } else { x.to_tdb_duration() };
+        (e.to_time_scale(od), e.to_duration_in_time_scale(od), named(&e, od), e.to_time_scale(dy), e.to_duration_in_time_scale(dy), named(&e, dy))
+    }) {
+        Err(p) => rep.fail(&format!("cross-dyn/panic/{}", p.class()), None, || format!("({}, {:?}) read in {:?} panicked: {} at {}", r_c, dy, od, p.msg, p.loc)),
+        Ok((o1, o2, o3, s1, s2, s3)) => {
+            if o1.time_scale != od || s1.time_scale != dy {
+                rep.fail("cross-dyn/scale-tag", None, || format!("({}, {:?}).to_time_scale({:?}) tagged {:?}; to own scale tagged {:?}", r_c, dy, od, o1.time_scale, s1.time_scale));
+            }
+            for (name, got) in [("to_time_scale", o1.duration), ("to_duration_in_time_scale", o2), ("named accessor", o3)] {
+                let g = count_d(got);
+                rep.note_max("max_cross_dyn_dev_ns", (g - want_other).abs() as f64);
+                if (g - want_other).abs() > 60 {
+                    rep.fail("cross-dyn/value", None, || format!("({}, {:?}) read in {:?} through {name} = {} ; closed forms give {} ; off by {} ns", r_c, dy, od, g, want_other, g - want_other));
+                }
+            }
+            for (name, got) in [("to_time_scale", s1.duration), ("to_duration_in_time_scale", s2), ("named accessor", s3)] {
+                let g = count_d(got);
+                if (g - r_c).abs() > 20 {
+                    rep.fail("cross-dyn/own-scale", None, || format!("({}, {:?}) read in its own scale through {name} = {} ; off by {} ns", r_c, dy, g, g - r_c));
+                }
+            }
+        }
+    }
+}
+
+/// "Both scales count from J2000 = 2000-01-01 12:00:00 in the scale itself": the epoch built from the Julian date
+/// 2451545 + k/2 in ET / TDB reads k half-days in that scale. Only inputs for which every float product on the way is
+/// exact are judged (then the only inexact step is dynamical -> TAI -> dynamical, which the statement bounds).
+pub fn check_jde_exact(rep: &mut Rep, k: i64, dy: TimeScale) {
+    let half = NS_D / 2;
+    let m = 2 * 2_451_545i128 + k as i128; // Julian date in half-days
+    let exact = |v: i128| (v as f64) as i128 == v && v.abs() < (1i128 << 100);
+    if !exact(m * half) || !exact(k as i128 * half) || m.abs() >= (1 << 52) {
+        return;
+    }
+    if !rep.tick() {
+        return;
+    }
+    rep.class("jde-exact-input");
+    let x = m as f64 / 2.0;
+    let want = k as i128 * half;
+    let nm = if dy == TimeScale::ET { "et" } else { "tdb" };
+    match guard(|| {
+        let e = if dy == TimeScale::ET { Epoch::from_jde_et(x) } else { Epoch::from_jde_tdb(x) };
+        let (d, j) = if dy == TimeScale::ET { (e.to_et_duration(), e.to_jde_et_duration()) } else { (e.to_tdb_duration(), e.to_jde_tdb_duration()) };
+        (d, j, e.to_time_scale(dy))
+    }) {
+        Err(p) => rep.fail(&format!("jde-exact/panic/{}", p.class()), None, || format!("from_jde_{nm}({x}) panicked: {} at {}", p.msg, p.loc)),
+        Ok((d, j, r)) => {
+            let g = count_d(d);
+            rep.note_max("max_jde_exact_dev_ns", (g - want).abs() as f64);
+            if (g - want).abs() > 30 || (count_d(r.duration) - want).abs() > 30 || (count_d(j) - want - JDE_J2000_NS).abs() > 30 {
+                rep.fail(&format!("jde-exact/value/{nm}"), None, || format!("from_jde_{nm}({x}) reads {} ns in {:?} (to_time_scale {}, JDE view {} - 2451545 d) ; the date denotes {} ns past J2000 ; off by {} ns", g, dy, count_d(r.duration), count_d(j), want, g - want));
+            }
+        }
+    }
+}
+
 pub fn check_order(rep: &mut Rep, t: i128, delta: i128, su: TimeScale, dy: TimeScale) {
     if !rep.tick() {
         return;
@@ -193,6 +265,10 @@ pub fn run(cfg: &Cfg, rep: &mut Rep) {
             for dy in dyns {
                 check(rep, &w, t, su, dy);
                 check_from(rep, &w, t - j2k, dy, su);
+                check_cross_dyn(rep, &w, t - j2k, dy);
+                if base_y.abs() <= 100 {
+                    check_jde_exact(rep, ((t - j2k) / (NS_D / 2)) as i64, dy);
+                }
             }
         }
     }
@@ -255,6 +331,17 @@ pub fn run(cfg: &Cfg, rep: &mut Rep) {
         let dy = *r.pick(&dyns);
         check(rep, &w, t, su, dy);
         check_from(rep, &w, t - j2k + r.range_i64(-1000, 1000) as i128, dy, su);
+        if k % 4 == 1 {
+            check_cross_dyn(rep, &w, t - j2k + r.range_i64(-1000, 1000) as i128, dy);
+        }
+        if k % 4 == 3 {
+            let kk = match r.below(3) {
+                0 => r.range_i64(-800, 800),
+                1 => r.range_i64(-73_000, 73_000),
+                _ => r.range_i64(-2_000_000, 2_000_000),
+            };
+            check_jde_exact(rep, kk, dy);
+        }
         if k % 2 == 0 {
             let delta = match r.below(3) {
                 0 => 101,
